@@ -6,6 +6,7 @@ import Ark.Props.C01Struct
 import Ark.Proofs.GenBridge.Table
 import Ark.Props.C01Refine
 import Ark.Props.C04Hist
+import Ark.Props.C01Rel
 
 namespace Ark.Props.C01
 open Ark Ark.World
@@ -184,5 +185,33 @@ theorem rel_frame_world : type_of% @Ark.Props.C04Hist.frame_world := @Ark.Props.
 
 /-- `RemoveEntity(e)` changes, of the other entities, exactly the targets that were `e` -/
 theorem rel_frame_del : type_of% @Ark.Props.C04Hist.frame_del := @Ark.Props.C04Hist.frame_del
+
+
+/-! ### The relation machine extended by CopyEntity, Shrink, filters and queries (Props/C01Rel) -/
+
+/-- after every Reset-free history of the extended relation machine every specified entity is alive with exactly the specified components, values and relation targets -/
+theorem rel2_refines : type_of% @Ark.Props.C01Rel.refines := @Ark.Props.C01Rel.refines
+
+/-- a handle the client holds is alive iff the specification has an entry for it -/
+theorem rel2_alive_iff_specified : type_of% @Ark.Props.C01Rel.alive_iff_specified := @Ark.Props.C01Rel.alive_iff_specified
+
+/-- Shrink, the filter operations and queries leave the specification and the handles alone -/
+theorem rel2_quiet_keeps_spec : type_of% @Ark.Props.C01Rel.quiet_keeps_spec := @Ark.Props.C01Rel.quiet_keeps_spec
+
+/-- Shrink, the filter operations and queries change no entity's components, values, relation targets or aliveness -/
+theorem rel2_quiet_is_invisible : type_of% @Ark.Props.C01Rel.quiet_is_invisible := @Ark.Props.C01Rel.quiet_is_invisible
+
+/-- Shrink as a step of the relation machine keeps the invariant with the specification unchanged -/
+theorem rel2_shrink_step : type_of% @Ark.Props.C01Rel.shrink_step := @Ark.Props.C01Rel.shrink_step
+
+/-- CopyEntity with relations: the copy has exactly the components, values and relation targets of the source; no other entity changes -/
+theorem rel2_copy_assigns : type_of% @Ark.Props.C01Rel.copy_assigns := @Ark.Props.C01Rel.copy_assigns
+
+/-- CopyEntity of a handle that is not alive is rejected without effect -/
+theorem rel2_copy_rejected : type_of% @Ark.Props.C01Rel.copy_rejected := @Ark.Props.C01Rel.copy_rejected
+
+/-- CopyEntity at world level in a world with relations never fails for a live entity -/
+theorem rel2_copyEntity_rel : type_of% @Ark.Props.C01Rel.copyEntity_rel := @Ark.Props.C01Rel.copyEntity_rel
+
 
 end Ark.Props.C01
